@@ -46,12 +46,12 @@ def tsan_reports(wd, repo):
 def run(tier, seed, t0):
     m = Merged(); wd = R.workdir(ID); repo = R.builder.repo_dir()
     big = T(tier, 1, 50)
-    R.run_inv(Inv("threads", 6 * big, "plain", args=["--mode=identity", "--schedules=%d" % T(tier, 2, 8), "--max_iterations=%d" % T(tier, 40, 80)], shards=min(6 * big, 4), timeout=T(tier, 2400, 6 * 3600), tag="identity/plain"), seed, wd, m)
+    R.run_inv(Inv("threads", 6 * big, "plain", args=["--mode=identity", "--schedules=%d" % T(tier, 2, 8), "--max_iterations=%d" % T(tier, 40, 80), "--large_every=%d" % T(tier, 3, 15)], shards=min(6 * big, 4), timeout=T(tier, 2400, 6 * 3600), tag="identity/plain"), seed, wd, m)
     R.run_inv(Inv("threads", 20 * big, "plain", args=["--mode=division"], shards=4, first=1000, timeout=T(tier, 1800, 6 * 3600), tag="division/plain"), seed, wd, m)
     R.run_inv(Inv("threads", 48 * big, "plain", args=["--mode=exception"], shards=4, first=2000, timeout=T(tier, 1800, 6 * 3600), tag="exception/plain"), seed, wd, m)
     # ---- ThreadSanitizer -------------------------------------------------------------------------------------------
     tenv = {"TSAN_OPTIONS": "halt_on_error=0:exitcode=0:log_path=%s:history_size=4:second_deadlock_stack=1:external_symbolizer_path=%s" % (os.path.join(wd, "tsan"), R.SYMBOLIZER)}
-    R.run_inv(Inv("threads", 2 * big, "tsan", args=["--mode=identity", "--schedules=1", "--max_iterations=30", "--min_iterations=20"], shards=2, first=3000, timeout=T(tier, 2400, 6 * 3600), env=tenv, tag="identity/tsan"), seed, wd, m)
+    R.run_inv(Inv("threads", 2 * big, "tsan", args=["--mode=identity", "--schedules=1", "--max_iterations=30", "--min_iterations=20", "--large_every=%d" % T(tier, 3, 25)], shards=2, first=3000, timeout=T(tier, 2400, 6 * 3600), env=tenv, tag="identity/tsan"), seed, wd, m)
     R.run_inv(Inv("threads", 6 * big, "tsan", args=["--mode=division", "--par_threads=8"], shards=3, first=4000, timeout=T(tier, 1800, 6 * 3600), env=tenv, tag="division/tsan"), seed, wd, m)
     R.run_inv(Inv("threads", 12 * big, "tsan", args=["--mode=exception"], shards=3, first=5000, timeout=T(tier, 1800, 6 * 3600), env=tenv, tag="exception/tsan"), seed, wd, m)
     R.run_inv(Inv("threads", 2 * big, "tsan", args=["--mode=triangulation"], shards=2, threads=8, first=6000, timeout=T(tier, 1800, 6 * 3600), env=tenv, tag="triangulation/tsan"), seed, wd, m)
@@ -66,7 +66,7 @@ def run(tier, seed, t0):
         "distinct_interleavings_observed": (m.bins.get("distinct_interleavings", 0), 40 * big),
         "division_rounds": (m.bins.get("cases@division/plain", 0), 20 * big), "successful_divisions": (m.bins.get("successful_divisions", 0), 30 * big),
         "exception_cases": (m.bins.get("cases@exception/plain", 0), 36 * big),
-        "exception_handler_cases": (m.bins.get("exception_kind:parallel_exception_handler", 0), 10 * big), "refine_meshes_cases": (m.bins.get("exception_kind:refine_meshes", 0), 10 * big), "mesh_writer_cases": (m.bins.get("exception_kind:mesh_writer", 0), 10 * big), "identity_tissues_with_a_very_large_cell": (m.bins.get("identity_runs_with_a_very_large_cell", 0), 2 * big), "runs_with_a_vanishing_cell": (m.bins.get("exception_kind:run_with_a_vanishing_cell", 0), 10 * big),
+        "exception_handler_cases": (m.bins.get("exception_kind:parallel_exception_handler", 0), 10 * big), "refine_meshes_cases": (m.bins.get("exception_kind:refine_meshes", 0), 10 * big), "mesh_writer_cases": (m.bins.get("exception_kind:mesh_writer", 0), 10 * big), "identity_tissues_with_a_very_large_cell": (m.bins.get("identity_runs_with_a_very_large_cell", 0), T(tier, 2, 20)), "runs_with_a_vanishing_cell": (m.bins.get("exception_kind:run_with_a_vanishing_cell", 0), 10 * big),
         "tsan_cases": (sum(v for k, v in m.bins.items() if k.startswith("cases@") and k.endswith("/tsan")), 19 * big),
     }
     return R.finish(ID, tier, seed, m,
